@@ -195,3 +195,58 @@ def make_contracts(L):
 
 
 BY_LAYOUT = {L.tag: make_contracts(L) for L in LAYOUTS}
+
+
+# --------------------------------------------------------------------------------------
+# logpdf (C12): multivariate-normal log-density through a triangular factor of the covariance
+# --------------------------------------------------------------------------------------
+
+
+def logpdf_spec(L, rv, u_flat):
+    """(value, clauses): log N(u; mean, cov) written with ghost quantities: a lower-triangular C with
+    C C^T = cov (the kernel's factor, memoised), w with C w = u - mean, and
+        log p = -1/2 |w|^2 - n/2 log(2 pi) - sum_i log|C_ii|.
+    For any such C: |w|^2 = (u-m)^T cov^{-1} (u-m) and 2 sum log|C_ii| = log det cov (lemma, stated)."""
+    import probdiffeq.backend.linalg as LA
+
+    cl = []
+
+    def one(chol, mean, u, tag):
+        C = LA.qr_r(chol.T).T
+        n = C.shape[0]
+        mask = jnp.triu(jnp.ones((n, n)), k=1)
+        # the ghost w is the kernel's solution of C w = u - mean (same kernel call form as the implementation,
+        # so that the memoised symbols coincide; its meaning is pinned down by the 'whitened_residual' clause)
+        w = LA.solve_tril(C, u - mean) if L is DenseL else LA.solve_triu(C.T, u - mean, trans="T")
+        cl.extend([eq(f"factor_lower_triangular{tag}", C * mask, 0.0), eq(f"factor_gram_is_cov{tag}", C @ C.T, chol @ chol.T), eq(f"whitened_residual{tag}", C @ w, u - mean)])
+        return -0.5 * jnp.sum(w * w) - n / 2 * jnp.log(jnp.pi * 2) - jnp.sum(jnp.log(jnp.abs(jnp.diagonal(C))))
+
+    if L is DenseL:
+        val = one(rv.cholesky_flat, rv.mean_flat, u_flat, "")
+    elif L is IsoL:
+        val = sum(one(rv.cholesky_flat, rv.mean_flat[:, j], u_flat[:, j], f"_dim{j}") for j in range(rv.mean_flat.shape[1]))
+    else:
+        val = sum(one(rv.cholesky_flat[j], rv.mean_flat[j], u_flat[j], f"_dim{j}") for j in range(rv.mean_flat.shape[0]))
+    return val, cl
+
+
+def make_logpdf_contract(L):
+    pre = f"{L.module}:{L.normal}"
+
+    def ensures(res, rv, u):
+        val, cl = logpdf_spec(L, rv, u)
+        return cl + [eq("log_density", res, val)]
+
+    def instances(tier):
+        out = []
+        for n, d in _fam(tier, L)[:3]:
+            out.append(Instance(f"n={n},d={d}", lambda rng, n=n, d=d: ((L.normal_obj(rng, n, d), L.point(rng, n, d)), {}), names=_names))
+        return out
+
+    return Contract(name=f"{pre}.logpdf_flat", module=L.module, qualname=f"{L.normal}.logpdf_flat", ensures=ensures, instances=instances,
+                    inherits=("solve_tril#", "solve_triu#"),
+                    doc="Gaussian log-density via a triangular factor of the covariance (sum over independent dimensions for isotropic / block-diag)")
+
+
+for _L in LAYOUTS:
+    BY_LAYOUT[_L.tag]["logpdf_flat"] = make_logpdf_contract(_L)
